@@ -1323,7 +1323,10 @@ Witness:\n{self.witness}
                     raise KeyError("Wrong length for the key")
                 if hash_type:
                     raise KeyError(f"Duplicate Key in parsing: {key.hex()}")
-                hash_type = little_endian_to_int(read_varstr(s))
+                hash_type_bytes = read_varstr(s)
+                if len(hash_type_bytes) != 4:
+                    raise ValueError("the sighash type is a 32-bit little endian integer")
+                hash_type = little_endian_to_int(hash_type_bytes)
             elif psbt_type == PSBT_IN_REDEEM_SCRIPT:
                 if len(key) != 1:
                     raise KeyError("Wrong length for the key")
